@@ -1,8 +1,10 @@
 package rules
 
 import (
+	"go/constant"
 	"go/token"
 	"go/types"
+	"os"
 	"sort"
 	"strings"
 
@@ -18,7 +20,8 @@ func init() {
 		Decides: "dutydb.MemDB: (D1) all data/query fields only under mu, *Unsafe helpers only with mu held; (D2) a store never writes a data map on the existing-key branch, " +
 			"every insertion is insert-if-absent and the existing-key branch contains a clash rejection; (D3) Store refuses expired/exempt duties before storing; " +
 			"(D4) every Await* registers its query and resolves in one critical section, Store reaches the matching resolve after every store call on every path, " +
-			"resolve keeps every unresolved uncancelled query; (D5) data is deleted only by deleteDutyUnsafe driven by deadliner.C().",
+			"resolve keeps every unresolved uncancelled query; (D5) data is deleted only by deleteDutyUnsafe driven by deadliner.C(); " +
+			"(D6) a store function reports success only after every key it maintains was looked up, and never swallows the error of a nested store.",
 		NotDecided: "equality of the *content* of two answers (value comparison functions are trusted), promptness in time, behaviour over interleavings beyond the lock discipline.",
 		Run:        c06,
 		Mutants: []Mutant{
@@ -52,6 +55,44 @@ func init() {
 			{ID: "C06-D5-delete-on-clash", File: "core/dutydb/memory.go", Expect: "D5",
 				Old: "\t\tif existingRoot != providedRoot {\n\t\t\treturn errors.New(\"clashing blocks\")",
 				New: "\t\tif existingRoot != providedRoot {\n\t\t\tdelete(db.proDuties, uint64(slot))\n\t\t\treturn errors.New(\"clashing blocks\")"},
+			// --- added with the refactor-robust formulation (h06): one mutant per mechanism that was generalised
+			{ID: "C06-D2-insert-other-key", File: "core/dutydb/memory.go", Expect: "D2", // key equivalence + dominance of the lookup
+				Old: "\t} else {\n\t\tdb.attDuties[aKey] = &attData.Data\n\t}",
+				New: "\t} else {\n\t\tdb.attDuties[attKey{Slot: aKey.Slot}] = &attData.Data\n\t}"},
+			{ID: "C06-D2-compare-new-with-new", File: "core/dutydb/memory.go", Expect: "D2", // the comparison must involve the stored value
+				Old: "\t\tif existingRoot != contribRoot {\n\t\t\treturn errors.New(\"clashing sync contributions\")",
+				New: "\t\tif _ = existingRoot; contribRoot != contribRoot {\n\t\t\treturn errors.New(\"clashing sync contributions\")"},
+			{ID: "C06-D2-clash-check-only-sometimes", File: "core/dutydb/memory.go", Expect: "D2", // must-pass: every success path of an existing key is compared
+				Old: "\t\tif value.String() != attData.Data.String() {",
+				New: "\t\tif attData.Duty.CommitteeIndex != 0 && value.String() != attData.Data.String() {"},
+			{ID: "C06-D3-status-conjunction", File: "core/dutydb/memory.go", Expect: "D3", // valuation-driven reachability
+				Old: "status == core.DeadlineExpired || status == core.DeadlineExempt {",
+				New: "status == core.DeadlineExpired && status == core.DeadlineExempt {"},
+			{ID: "C06-D3-proposer-bypasses-check", File: "core/dutydb/memory.go", Expect: "D3",
+				Old: "status == core.DeadlineExpired || status == core.DeadlineExempt {",
+				New: "duty.Type != core.DutyProposer && (status == core.DeadlineExpired || status == core.DeadlineExempt) {"},
+			{ID: "C06-D3-store-outside-store", File: "core/dutydb/memory.go", Expect: "D3", // confinement of the storing functions
+				Old: "\tdb.mu.Lock()\n\tdefer db.mu.Unlock()\n\n\tkey := pkKey{",
+				New: "\tdb.mu.Lock()\n\tdefer db.mu.Unlock()\n\n\t_ = db.storeProposalUnsafe(core.VersionedProposal{})\n\n\tkey := pkKey{"},
+			{ID: "C06-D4-resolve-before-register", File: "core/dutydb/memory.go", Expect: "D4", // event → resolver order inside the critical section
+				Old: "\tdb.mu.Lock()\n\tdb.proQueries = append(db.proQueries, proQuery{\n\t\tKey:      slot,\n\t\tResponse: response,\n\t\tCancel:   cancel,\n\t})\n\tdb.resolveProQueriesUnsafe()\n",
+				New: "\tdb.mu.Lock()\n\tdb.resolveProQueriesUnsafe()\n\tdb.proQueries = append(db.proQueries, proQuery{\n\t\tKey:      slot,\n\t\tResponse: response,\n\t\tCancel:   cancel,\n\t})\n"},
+			{ID: "C06-D4-drop-live-queries", File: "core/dutydb/memory.go", Expect: "D4", // polarity of the cancel test (select summary)
+				Old: "\tfor _, query := range db.aggQueries {\n\t\tif cancelled(query.Cancel) {",
+				New: "\tfor _, query := range db.aggQueries {\n\t\tif !cancelled(query.Cancel) {"},
+			{ID: "C06-D4-write-back-lost", File: "core/dutydb/memory.go", Expect: "D4", // the kept list must reach the queries field
+				Old: "\tdb.contribQueries = unresolved\n", New: "\tdb.contribQueries = nil\n\t_ = unresolved\n"},
+			{ID: "C06-D4-resolver-stops-at-first-answer", File: "core/dutydb/memory.go", Expect: "D4", // loop left early
+				Old: "\t\tquery.Response <- contribution\n", New: "\t\tquery.Response <- contribution\n\n\t\tbreak\n"},
+			{ID: "C06-D5-delete-stored-duty", File: "core/dutydb/memory.go", Expect: "D5", // expiry-driven call sites only
+				Old: "\tswitch duty.Type {\n\tcase core.DutyProposer:\n\t\t// Sanity check",
+				New: "\t_ = db.deleteDutyUnsafe(duty)\n\n\tswitch duty.Type {\n\tcase core.DutyProposer:\n\t\t// Sanity check"},
+			{ID: "C06-D6-swallow-entry-error", File: "core/dutydb/memory.go", Expect: "D6", // nested store errors are propagated
+				Old: "\t\t\tif err := db.storeSyncContributionEntryUnsafe(entry); err != nil {\n\t\t\t\treturn err\n\t\t\t}\n",
+				New: "\t\t\t_ = db.storeSyncContributionEntryUnsafe(entry)\n"},
+			{ID: "C06-D6-new-pubkey-skips-rest", File: "core/dutydb/memory.go", Expect: "D6", // must-pass between consecutive keys
+				Old: "pKey)\n\t}\n\n\t// Store key and value for AwaitAttestation\n\taKey := attKey{",
+				New: "pKey)\n\n\t\treturn nil\n\t}\n\n\t// Store key and value for AwaitAttestation\n\taKey := attKey{"},
 		},
 	})
 }
@@ -61,275 +102,418 @@ const dutydb = "core/dutydb.MemDB"
 var c06DataMaps = []string{"attDuties", "attPubKeys", "proDuties", "aggDuties", "contribDuties"}
 
 func c06(c *rt.Ctx) {
-	c.Rule("D1", 30, func() {
+	c.Rule("D1", 20, func() {
 		t := an.LockTable{}
 		for _, f := range []string{"attDuties", "attPubKeys", "attKeysBySlot", "attQueries", "proDuties", "proQueries",
 			"aggDuties", "aggKeysBySlot", "aggQueries", "contribDuties", "contribKeysBySlot", "contribQueries"} {
 			t[dutydb+"."+f] = "mu" // all twelve are touched only under mu, in *Unsafe helpers or in the constructor
 		}
-		lockRule(c, []string{"core/dutydb"}, t)
+		// the anchors of the frozen table must exist: a renamed mutex / field makes the rule undecided, not violated
+		obj := c.Pkg("core/dutydb").Types.Scope().Lookup("MemDB")
+		if obj == nil {
+			c.Bail("type core/dutydb.MemDB not found")
+		}
+		st, ok := obj.Type().Underlying().(*types.Struct)
+		if !ok {
+			c.Bail("core/dutydb.MemDB is not a struct")
+		}
+		have := map[string]types.Type{}
+		for i := 0; i < st.NumFields(); i++ {
+			have[st.Field(i).Name()] = st.Field(i).Type()
+		}
+		// the guarding mutex is MemDB's only mutex field, whatever it is called
+		var mus []string
+		for i := 0; i < st.NumFields(); i++ {
+			if n := an.TypeName(st.Field(i).Type()); (n == "sync.Mutex" || n == "sync.RWMutex") && !st.Field(i).Embedded() {
+				mus = append(mus, st.Field(i).Name())
+			}
+		}
+		if len(mus) != 1 {
+			c.Bail("MemDB has %d named mutex fields (expected exactly one): the guarded-by table cannot be applied", len(mus))
+		}
+		for k := range t {
+			t[k] = mus[0]
+		}
+		for k := range t {
+			if _, ok := have[strings.TrimPrefix(k, dutydb+".")]; !ok {
+				c.Bail("MemDB has no field %s (renamed?): the guarded-by table cannot be applied", k)
+			}
+		}
+		c06LockRule(c, []string{"core/dutydb"}, t)
 	})
 
-	pkg := c.SSAPkg("core/dutydb")
-	funcs := an.PkgFuncs(pkg)
-	isData := func(key string) bool {
-		for _, f := range c06DataMaps {
-			if key == dutydb+"."+f {
+	m := c06NewModel(c, "core/dutydb")
+	if name := os.Getenv("C06DUMP"); name != "" {
+		for _, f := range m.all {
+			if strings.Contains(an.FuncName(f), name) || strings.Contains(f.Name(), name) {
+				f.WriteTo(os.Stderr)
+			}
+		}
+	}
+
+	c.Rule("D2", 15, func() { c06D2(c, m) })
+	c.Rule("D6", 7, func() { c06D6(c, m) })
+	c.Rule("D3", 6, func() { c06D3(c, m) })
+	c.Rule("D4", 12, func() { c06D4(c, m) })
+	c.Rule("D5", 8, func() { c06D5(c, m) })
+}
+
+// ---------------------------------------------------------------------------------------------
+// D2: insert-if-absent, existing entries are never replaced, a clash is rejected.
+
+// c06Exists describes how the presence of a key is tested after a map lookup.
+type c06Exists struct {
+	lk  *ssa.Lookup
+	ok  ssa.Value // comma-ok result (nil for a plain lookup)
+	val ssa.Value // the looked-up value (Extract #0 or the lookup itself)
+}
+
+func c06ExistsOf(lk *ssa.Lookup) c06Exists {
+	e := c06Exists{lk: lk}
+	if lk.CommaOk {
+		for _, ref := range *lk.Referrers() {
+			if ex, ok := ref.(*ssa.Extract); ok {
+				if ex.Index == 1 {
+					e.ok = ex
+				} else {
+					e.val = ex
+				}
+			}
+		}
+	} else {
+		e.val = lk
+	}
+	return e
+}
+
+func c06Nillable(t types.Type) bool {
+	switch t.Underlying().(type) {
+	case *types.Pointer, *types.Interface, *types.Map, *types.Slice, *types.Chan, *types.Signature:
+		return true
+	}
+	return false
+}
+
+// tested reports whether some branch of fn depends on the presence test of this lookup.
+func (e c06Exists) tested(fn *ssa.Function) bool {
+	if e.ok != nil && len(an.CondsOn(fn, e.ok)) > 0 {
+		return true
+	}
+	if e.ok != nil {
+		// the ok value feeds a phi / named boolean that is branched on
+		for _, b := range fn.Blocks {
+			if iff, ok := b.Instrs[len(b.Instrs)-1].(*ssa.If); ok && c06DependsOn(iff.Cond, e.ok) {
 				return true
 			}
 		}
+	}
+	if e.val != nil && c06Nillable(e.val.Type()) {
+		for _, cd := range an.CondsOn(fn, e.val) {
+			if cd.Other != nil && an.IsNilConst(cd.Other) {
+				return true
+			}
+		}
+	}
+	return false
+}
+
+// env is the valuation "the key was present / absent".
+func (e c06Exists) env(present bool) an.H06Env {
+	return func(v ssa.Value) (constant.Value, bool) {
+		if e.ok != nil && v == e.ok {
+			return constant.MakeBool(present), true
+		}
+		if e.val != nil && c06Nillable(e.val.Type()) {
+			// stored values are never nil (D2 inserts addresses of fresh clones): val != nil ⇔ present
+			if bin, ok := v.(*ssa.BinOp); ok && (bin.Op == token.EQL || bin.Op == token.NEQ) {
+				if (an.Unwrap(bin.X) == e.val && an.IsNilConst(bin.Y)) || (an.Unwrap(bin.Y) == e.val && an.IsNilConst(bin.X)) {
+					return constant.MakeBool(present == (bin.Op == token.NEQ)), true
+				}
+			}
+		}
+		return nil, false
+	}
+}
+
+func c06D2(c *rt.Ctx, m *c06Model) {
+	perField := map[string][2]int{} // field -> inserts, tested lookups
+	for _, fn := range m.all {
+		ins := m.dataInserts(fn)
+		if len(ins) == 0 {
+			continue
+		}
+		var ups []*ssa.MapUpdate
+		for u := range ins {
+			ups = append(ups, u)
+		}
+		sort.Slice(ups, func(i, j int) bool { return posOf(ups[i]) < posOf(ups[j]) })
+		fields := map[string]bool{}
+		for _, u := range ups {
+			fields[ins[u]] = true
+		}
+		lookups := func(field string) []c06Exists {
+			var out []c06Exists
+			for _, lk := range c06Lookups(fn, field) {
+				if e := c06ExistsOf(lk); e.tested(fn) {
+					out = append(out, e)
+				}
+			}
+			return out
+		}
+		// every write to a data map is insert-if-absent
+		for _, u := range ups {
+			field := ins[u]
+			x := perField[field]
+			x[0]++
+			perField[field] = x
+			good := false
+			for _, e := range lookups(field) {
+				if !c06KeyEquiv(e.lk.Index, u.Key) || !an.Dominates(e.lk, u) {
+					continue
+				}
+				if _, reach := an.H06Escape(e.lk, an.H06Opt{Env: e.env(true), Target: u, NoReenter: true}); !reach {
+					good = true
+				}
+			}
+			c.Check(an.FuncName(fn)+" insert "+field, posOf(u), good,
+				"write to the data map is not confined to the absent outcome of a lookup of the same key: an existing value can be replaced")
+		}
+		// when the key exists: the entry is never written and a clash with the stored value is rejected
+		var fs []string
+		for f := range fields {
+			fs = append(fs, f)
+		}
+		sort.Strings(fs)
+		for _, field := range fs {
+			short := strings.TrimPrefix(field, dutydb+".")
+			for _, e := range lookups(field) {
+				x := perField[field]
+				x[1]++
+				perField[field] = x
+				wrote := false
+				for _, u := range ups {
+					if ins[u] != field || !c06KeyEquiv(e.lk.Index, u.Key) {
+						continue
+					}
+					if _, reach := an.H06Escape(e.lk, an.H06Opt{Env: e.env(true), Target: u, NoReenter: true}); reach {
+						wrote = true
+					}
+				}
+				c.Check(an.FuncName(fn)+" existing-key branch of "+short+" never writes", e.lk.Pos(), !wrote,
+					"when the key already exists the data map entry is assigned: stored data can be replaced, answers for one key can differ")
+				// the stored value: what this lookup (or another lookup of the same key) yields
+				var stored []ssa.Value
+				for _, o := range lookups(field) {
+					if o.val != nil && c06KeyEquiv(o.lk.Index, e.lk.Index) {
+						stored = append(stored, o.val)
+					}
+				}
+				path, esc := an.H06Escape(e.lk, an.H06Opt{Env: e.env(true), NoReenter: true,
+					Effect: func(in ssa.Instruction) bool {
+						for _, sv := range stored {
+							if c06RejectingComparison(m, in, sv) || c06RejectingCall(m, in, sv) {
+								return true
+							}
+						}
+						return false
+					},
+					ReturnOK: func(r *ssa.Return, _ an.H06Env) bool { return !c06SuccessReturn(r) || c06ErrReturnNonNil(r) }})
+				c.Check(an.FuncName(fn)+" existing-key branch of "+short+" rejects clashes", e.lk.Pos(), !esc,
+					"when the key already exists the function can report success without comparing the stored value with the new one (conflicting data is silently accepted): "+an.PathString(c.P, path))
+			}
+		}
+	}
+	for _, f := range c06DataMaps {
+		x := perField[dutydb+"."+f]
+		if x[0] == 0 || x[1] == 0 {
+			c.Unsure("data map "+f, token.NoPos, "no insertion with a tested lookup found for this data map (renamed, or written through an alias the rule cannot resolve)")
+		}
+	}
+	// safety net: a write to a map of a data-map type that cannot be attributed to a field
+	dataTypes := c06DataMapTypes(c)
+	for _, fn := range m.all {
+		for _, in := range an.Instrs(fn, false) {
+			mu, ok := in.(*ssa.MapUpdate)
+			if !ok {
+				continue
+			}
+			if _, _, ok := an.FieldOf(mu.Map); ok {
+				continue
+			}
+			for _, t := range dataTypes {
+				if types.Identical(mu.Map.Type(), t) {
+					c.Unsure(an.FuncName(fn)+" aliased write", posOf(mu), "a map of a data-map type is written through a parameter or local the rule cannot attribute to a MemDB field")
+				}
+			}
+		}
+	}
+}
+
+func c06DataMapTypes(c *rt.Ctx) []types.Type {
+	obj := c.Pkg("core/dutydb").Types.Scope().Lookup("MemDB")
+	if obj == nil {
+		c.Bail("type MemDB not found")
+	}
+	st, ok := obj.Type().Underlying().(*types.Struct)
+	if !ok {
+		c.Bail("MemDB is not a struct")
+	}
+	var out []types.Type
+	for i := 0; i < st.NumFields(); i++ {
+		for _, f := range c06DataMaps {
+			if st.Field(i).Name() == f {
+				out = append(out, st.Field(i).Type())
+			}
+		}
+	}
+	if len(out) != len(c06DataMaps) {
+		c.Bail("MemDB has %d of the %d data map fields", len(out), len(c06DataMaps))
+	}
+	return out
+}
+
+// c06RejectingComparison: `in` is a branch on a content comparison involving the stored value whose one outcome
+// returns an error: `a != b` on values derived from it, a boolean predicate over it, or the checked error of an
+// in-package helper that itself contains such a comparison.
+func c06RejectingComparison(m *c06Model, in ssa.Instruction, stored ssa.Value) bool {
+	iff, ok := in.(*ssa.If)
+	if !ok || stored == nil {
 		return false
 	}
+	rejects := false
+	for _, s := range iff.Block().Succs {
+		if c06ReturnsError(s) {
+			rejects = true
+		}
+	}
+	if !rejects {
+		return false
+	}
+	return c06ContentCond(m, iff.Cond, stored, 0)
+}
 
-	c.Rule("D2", 14, func() {
-		nLookups := 0
-		for _, fn := range funcs {
-			// every write to a data map is insert-if-absent
-			for _, up := range mapUpdates(fn, func(m ssa.Value) bool { k, _, ok := an.FieldOf(m); return ok && isData(k) }) {
-				field, _, _ := an.FieldOf(up.Map)
-				good, why := false, "write to the data map is not on the absent edge of a comma-ok lookup of the same key"
-				for _, lk := range c06Lookups(fn, field) {
-					okv := c06OkOf(lk)
-					if okv == nil || !an.Equiv(lk.Index, up.Key) {
-						continue
-					}
-					for _, cd := range an.CondsOn(fn, okv) {
-						if cd.Other == nil && cd.Succ(false).Dominates(up.Block()) && !an.CanReach(cd.Succ(true), up.Block(), nil) {
-							good = true
-						}
-					}
-				}
-				c.Check(an.FuncName(fn)+" insert "+field, posOf(up), good, why)
-			}
-			// the existing-key branch of every comma-ok lookup in a store function rejects clashes and never writes
-			if !strings.HasPrefix(fn.Name(), "store") {
-				continue
-			}
-			for _, f := range c06DataMaps {
-				field := dutydb + "." + f
-				for _, lk := range c06Lookups(fn, field) {
-					okv := c06OkOf(lk)
-					if okv == nil {
-						continue
-					}
-					nLookups++
-					for _, cd := range an.CondsOn(fn, okv) {
-						if cd.Other != nil {
-							continue
-						}
-						exist := cd.Succ(true)
-						region := an.ReachBlocks(exist, nil)
-						// restrict to blocks dominated by the existing-key successor
-						wrote, rejects := false, false
-						for b := range region {
-							if !exist.Dominates(b) {
-								continue
-							}
-							for _, in := range b.Instrs {
-								if mu, ok := in.(*ssa.MapUpdate); ok {
-									if k, _, ok := an.FieldOf(mu.Map); ok && k == field {
-										wrote = true
-									}
-								}
-							}
-							if iff, ok := b.Instrs[len(b.Instrs)-1].(*ssa.If); ok {
-								if bin, ok := iff.Cond.(*ssa.BinOp); ok && (bin.Op == token.NEQ || bin.Op == token.EQL) &&
-									!an.IsErrorType(bin.X.Type()) && !an.IsNilConst(bin.Y) && !an.IsNilConst(bin.X) {
-									for _, s := range b.Succs {
-										if c06ReturnsError(s) {
-											rejects = true
-										}
-									}
-								}
-							}
-						}
-						c.Check(an.FuncName(fn)+" existing-key branch of "+f+" never writes", lk.Pos(), !wrote,
-							"the branch taken when the key already exists assigns the data map: stored data can be replaced, answers for one key can differ")
-						c.Check(an.FuncName(fn)+" existing-key branch of "+f+" rejects clashes", lk.Pos(), rejects,
-							"no comparison with an error return in the existing-key branch: conflicting data is silently accepted")
-					}
-				}
-			}
+// c06RejectingCall: a call of an in-package helper that compares the stored value (passed as an argument) and
+// returns an error on a mismatch, whose error is propagated (returned or checked) by the caller.
+func c06RejectingCall(m *c06Model, in ssa.Instruction, stored ssa.Value) bool {
+	call, ok := in.(*ssa.Call)
+	if !ok || stored == nil || !c06HasErrResult(call) || !c06ArgsDependOn(call, stored) {
+		return false
+	}
+	found := false
+	for _, g := range m.during(call) {
+		if c06HasRejectingComparison(g) {
+			found = true
 		}
-		if nLookups < 7 {
-			c.Unsure("lookups", token.NoPos, "fewer comma-ok lookups in store functions than confirmed (7)")
-		}
-	})
+	}
+	if !found {
+		return false
+	}
+	_, swallowed := c06SwallowPath(call)
+	return !swallowed
+}
 
-	c.Rule("D6", 7, func() {
-		// a store function reports success only after every key it maintains has been looked up (and thereby
-		// compared or inserted): an early `return nil` that skips a later lookup accepts conflicting data unseen
-		// and leaves alias keys missing
-		for _, fn := range funcs {
-			if !strings.HasPrefix(fn.Name(), "store") || fn.Parent() != nil {
-				continue
-			}
-			var lks []*ssa.Lookup
-			for _, f := range c06DataMaps {
-				for _, lk := range c06Lookups(fn, dutydb+"."+f) {
-					if lk.CommaOk {
-						lks = append(lks, lk)
-					}
-				}
-			}
-			for i, lk := range lks {
-				field, _, _ := an.FieldOf(lk.X)
-				good := true
-				var bad *ssa.Return
-				for _, r := range an.Returns(fn) {
-					succ := false
-					for _, v := range r.Results {
-						if an.IsErrorType(v.Type()) && an.IsNilConst(v) {
-							succ = true
-						}
-					}
-					if succ && !lk.Block().Dominates(r.Block()) {
-						good, bad = false, r
-					}
-				}
-				pos := lk.Pos()
-				if bad != nil {
-					pos = posOf(bad)
-				}
-				c.Check(an.FuncName(fn)+" success only after lookup #"+itoa(i+1)+" of "+field, pos, good,
-					"the function can return success on a path that skips this key's lookup: conflicting data for it is accepted unseen / the key is never inserted")
+func c06ContentCond(m *c06Model, cond ssa.Value, stored ssa.Value, d int) bool {
+	if d > 4 {
+		return false
+	}
+	switch x := cond.(type) {
+	case *ssa.UnOp:
+		if x.Op == token.NOT {
+			return c06ContentCond(m, x.X, stored, d+1)
+		}
+	case *ssa.Phi:
+		for _, e := range x.Edges {
+			if c06ContentCond(m, e, stored, d+1) {
+				return true
 			}
 		}
-	})
-
-	c.Rule("D3", 4, func() {
-		fn := c.Fn("core/dutydb.MemDB.Store")
-		add := c.OneCall(fn, an.Invoke("core.Deadliner.Add"), "deadliner.Add", false)
-		stores := c06StoreCalls(fn)
-		if len(stores) < 4 {
-			c.Bail("expected 4 store*Unsafe calls in Store, found %d", len(stores))
+	case *ssa.BinOp:
+		if x.Op != token.NEQ && x.Op != token.EQL {
+			return false
 		}
-		for _, st := range stores {
-			for _, name := range []string{"DeadlineExpired", "DeadlineExempt"} {
-				want := constOf(c, "core", name)
-				good := false
-				for _, cd := range an.CondsOn(fn, add.Value()) {
-					if n, ok := an.ConstInt(cd.Other); ok && n == want && cd.Op == token.EQL && an.Dominates(cd.If, st) && an.EdgeCuts(cd.Succ(true), st, nil) {
-						good = true
-					}
-				}
-				c.Check("Store "+name+"→no "+an.FuncName(st.Common().StaticCallee()), st.Pos(), good, "data is stored although deadliner.Add reported "+name)
+		if an.IsNilConst(x.X) || an.IsNilConst(x.Y) {
+			// `err != nil` on the result of a helper that compares the stored value
+			e := x.X
+			if an.IsNilConst(e) {
+				e = x.Y
 			}
-		}
-	})
-
-	c.Rule("D4", 12, func() {
-		store := c.Fn("core/dutydb.MemDB.Store")
-		// resolver functions: range over a *Queries field and send on the element's Response channel
-		resolvers := map[*ssa.Function][2]string{} // fn -> (queries field, data field)
-		for _, fn := range funcs {
-			if q, d, ok := c06ResolverOf(fn); ok {
-				resolvers[fn] = [2]string{q, d}
-			}
-		}
-		if len(resolvers) != 4 {
-			c.Bail("expected 4 resolve functions, found %d", len(resolvers))
-		}
-		resolverFor := func(field string, idx int) *ssa.Function {
-			for fn, qd := range resolvers {
-				if qd[idx] == field {
-					return fn
-				}
-			}
-			return nil
-		}
-		// (a) Store: after each store*Unsafe call, every path to the exit passes the matching resolver
-		for _, st := range c06StoreCalls(store) {
-			callee := st.Common().StaticCallee()
-			written := c06WrittenData(callee, map[*ssa.Function]bool{})
-			var res []*ssa.Function
-			for _, w := range written {
-				if r := resolverFor(w, 1); r != nil {
-					res = append(res, r)
-				}
-			}
-			if len(res) == 0 {
-				c.Unsure("Store "+an.FuncName(callee), st.Pos(), "cannot find the resolver for the data written by this store call")
-				continue
-			}
-			path, esc := an.EscapePath(st, func(in ssa.Instruction) bool {
-				ci, ok := in.(ssa.CallInstruction)
-				if !ok {
-					return false
-				}
-				for _, r := range res {
-					if ci.Common().StaticCallee() == r {
-						return true
-					}
-				}
+			if !an.IsErrorType(e.Type()) {
 				return false
-			}, an.PassOpt{})
-			c.Check("Store "+an.FuncName(callee)+"→"+an.FuncName(res[0]), st.Pos(), !esc,
-				"path from a store call (which may have inserted) to a return that skips resolving the blocked queries: "+an.PathString(c.P, path))
-		}
-		// (b) Await*: query registered and resolved in one critical section
-		for _, fn := range funcs {
-			if fn.Parent() != nil {
-				continue
 			}
-			for _, in := range an.Instrs(fn, false) {
-				st, ok := in.(*ssa.Store)
-				if !ok {
-					continue
-				}
-				fa, ok := st.Addr.(*ssa.FieldAddr)
-				if !ok {
-					continue
-				}
-				q := an.FieldKey(fa.X.Type(), fa.Field)
-				r := resolverFor(q, 0)
-				if r == nil || r == fn {
-					continue
-				}
-				path, esc := an.EscapePath(st, func(in ssa.Instruction) bool {
-					ci, ok := in.(ssa.CallInstruction)
-					return ok && ci.Common().StaticCallee() == r
-				}, an.PassOpt{ExitAt: func(in ssa.Instruction) bool {
-					ci, ok := in.(*ssa.Call)
-					return ok && an.Static("sync.Mutex.Unlock")(&ci.Call)
-				}})
-				c.Check(an.FuncName(fn)+" register+resolve "+q, posOf(st), !esc,
-					"the query is registered but the critical section ends (or the function returns) before the matching resolver runs: "+an.PathString(c.P, path))
+			call := c06CallOf(e)
+			if call == nil || !c06ArgsDependOn(call, stored) {
+				return false
 			}
+			for _, g := range m.during(call) {
+				if c06HasRejectingComparison(g) {
+					return true
+				}
+			}
+			return false
 		}
-		// (c) resolvers keep every unresolved, uncancelled query and answer from the matching data map
-		var rs []*ssa.Function
-		for fn := range resolvers {
-			rs = append(rs, fn)
+		if an.IsErrorType(x.X.Type()) {
+			return false
 		}
-		sort.Slice(rs, func(i, j int) bool { return an.FuncName(rs[i]) < an.FuncName(rs[j]) })
-		for _, fn := range rs {
-			ok, why := c06ResolverKeeps(fn, resolvers[fn][0])
-			c.Check(an.FuncName(fn)+" keeps unresolved queries", fn.Pos(), ok, why)
+		return c06DependsOn(x.X, stored) || c06DependsOn(x.Y, stored)
+	case *ssa.Call:
+		// boolean predicate over the stored value (bytes.Equal, a sameX helper ...)
+		if b, ok := x.Type().Underlying().(*types.Basic); ok && b.Kind() == types.Bool {
+			return c06ArgsDependOn(x, stored)
 		}
-	})
+	}
+	return false
+}
 
-	c.Rule("D5", 8, func() {
-		del := c.Fn("core/dutydb.MemDB.deleteDutyUnsafe")
-		for _, fn := range funcs {
-			for _, in := range an.Instrs(fn, false) {
-				call, ok := in.(*ssa.Call)
-				if !ok {
-					continue
-				}
-				if b, ok := call.Call.Value.(*ssa.Builtin); ok && (b.Name() == "delete" || b.Name() == "clear") {
-					if k, _, ok := an.FieldOf(call.Call.Args[0]); ok && strings.HasPrefix(k, dutydb+".") {
-						c.Check(an.FuncName(fn)+" delete "+k, call.Pos(), fn == del, "stored data is deleted outside expiry trimming (deleteDutyUnsafe)")
-					}
-				}
-				if call.Call.StaticCallee() == del {
-					c.Check(an.FuncName(fn)+" calls deleteDutyUnsafe", call.Pos(),
-						an.FuncName(fn) == "core/dutydb.MemDB.Store" && valueFromRecvOf(call.Call.Args[1], "iface:core.Deadliner.C"),
-						"deleteDutyUnsafe is called for a duty that was not received from the deadliner's expiry channel")
-				}
+func c06CallOf(v ssa.Value) *ssa.Call {
+	v = an.Unwrap(v)
+	switch x := v.(type) {
+	case *ssa.Call:
+		return x
+	case *ssa.Extract:
+		if call, ok := x.Tuple.(*ssa.Call); ok {
+			return call
+		}
+	}
+	return nil
+}
+
+func c06ArgsDependOn(call *ssa.Call, src ssa.Value) bool {
+	for _, a := range call.Call.Args {
+		if c06DependsOn(a, src) {
+			return true
+		}
+	}
+	return call.Call.IsInvoke() && c06DependsOn(call.Call.Value, src)
+}
+
+// c06HasRejectingComparison: the function contains a comparison of non-error values derived from a parameter with
+// an outcome that returns a non-nil error.
+func c06HasRejectingComparison(g *ssa.Function) bool {
+	for _, b := range g.Blocks {
+		iff, ok := b.Instrs[len(b.Instrs)-1].(*ssa.If)
+		if !ok {
+			continue
+		}
+		bin, ok := iff.Cond.(*ssa.BinOp)
+		if !ok || (bin.Op != token.NEQ && bin.Op != token.EQL) || an.IsNilConst(bin.X) || an.IsNilConst(bin.Y) || an.IsErrorType(bin.X.Type()) {
+			continue
+		}
+		fromParam := false
+		for _, p := range g.Params {
+			if c06DependsOn(bin.X, p) || c06DependsOn(bin.Y, p) {
+				fromParam = true
 			}
 		}
-	})
+		if !fromParam {
+			continue
+		}
+		for _, s := range b.Succs {
+			if c06ReturnsError(s) {
+				return true
+			}
+		}
+	}
+	return false
 }
 
 // c06Lookups returns the map lookups on the named field in fn.
@@ -345,29 +529,12 @@ func c06Lookups(fn *ssa.Function, field string) []*ssa.Lookup {
 	return out
 }
 
-// c06OkOf returns the `ok` value of a comma-ok lookup (nil for a plain lookup).
-func c06OkOf(lk *ssa.Lookup) ssa.Value {
-	if !lk.CommaOk {
-		return nil
-	}
-	for _, ref := range *lk.Referrers() {
-		if ex, ok := ref.(*ssa.Extract); ok && ex.Index == 1 {
-			return ex
-		}
-	}
-	return nil
-}
-
 // c06ReturnsError: block b (following straight-line successors) returns a non-nil error.
 func c06ReturnsError(b *ssa.BasicBlock) bool {
-	for i := 0; i < 4 && b != nil; i++ {
+	for i := 0; i < 6 && b != nil; i++ {
 		if r, ok := b.Instrs[len(b.Instrs)-1].(*ssa.Return); ok {
-			for _, v := range r.Results {
-				if an.IsErrorType(v.Type()) && !an.IsNilConst(v) {
-					return true
-				}
-			}
-			return false
+			e, has := c06ErrOf(r)
+			return has && !c06MayBeNil(e, map[ssa.Value]bool{})
 		}
 		if len(b.Succs) != 1 {
 			return false
@@ -377,130 +544,1076 @@ func c06ReturnsError(b *ssa.BasicBlock) bool {
 	return false
 }
 
-// c06StoreCalls returns the calls in fn to in-package functions that (transitively) write a data map.
-func c06StoreCalls(fn *ssa.Function) []ssa.CallInstruction {
-	var out []ssa.CallInstruction
-	for _, in := range an.Instrs(fn, false) {
-		ci, ok := in.(ssa.CallInstruction)
-		if !ok {
-			continue
-		}
-		callee := ci.Common().StaticCallee()
-		if callee == nil || callee.Pkg != fn.Pkg {
-			continue
-		}
-		if len(c06WrittenData(callee, map[*ssa.Function]bool{})) > 0 {
-			out = append(out, ci)
-		}
-	}
-	return out
-}
+// ---------------------------------------------------------------------------------------------
+// D6: success only after every key was handled; nested store errors are not swallowed.
 
-// c06WrittenData lists the data-map fields a function may insert into (through in-package static calls).
-func c06WrittenData(fn *ssa.Function, seen map[*ssa.Function]bool) []string {
-	if fn == nil || seen[fn] {
-		return nil
-	}
-	seen[fn] = true
-	set := map[string]bool{}
-	for _, in := range an.Instrs(fn, true) {
-		switch x := in.(type) {
-		case *ssa.MapUpdate:
-			if k, _, ok := an.FieldOf(x.Map); ok {
-				for _, f := range c06DataMaps {
-					if k == dutydb+"."+f {
-						set[k] = true
+func c06D6(c *rt.Ctx, m *c06Model) {
+	for _, fn := range m.all {
+		ins := m.dataInserts(fn)
+		fields := map[string]bool{}
+		for _, f := range ins {
+			fields[f] = true
+		}
+		type site struct {
+			in   ssa.Instruction
+			what string
+		}
+		var sites []site
+		for _, f := range c06DataMaps {
+			field := dutydb + "." + f
+			if !fields[field] {
+				continue
+			}
+			for _, lk := range c06Lookups(fn, field) {
+				if c06ExistsOf(lk).tested(fn) {
+					sites = append(sites, site{lk, "lookup of " + field})
+				}
+			}
+		}
+		loopOf := func(in ssa.Instruction) bool { return an.InnermostLoop(fn, in.Block()) != nil }
+		for _, in := range m.insertSites(fn) {
+			if _, isMU := in.(*ssa.MapUpdate); isMU {
+				continue
+			}
+			// (ii) the error of a nested store is not swallowed
+			ci := in.(ssa.CallInstruction)
+			if v := ci.Value(); v != nil && c06HasErrResult(ci) {
+				path, esc := c06SwallowPath(v)
+				c.Check(an.FuncName(fn)+" propagates the error of "+c06SiteName(m, in), in.Pos(), !esc,
+					"the error of a nested store call can be dropped: the function reports success although an entry was rejected: "+an.PathString(c.P, path))
+			}
+			if !loopOf(in) && len(ins) > 0 {
+				sites = append(sites, site{in, "call " + c06SiteName(m, in)})
+			}
+		}
+		if len(sites) == 0 || len(ins) == 0 {
+			continue
+		}
+		sort.Slice(sites, func(i, j int) bool { return posOf(sites[i].in) < posOf(sites[j].in) })
+		retOK := func(r *ssa.Return, _ an.H06Env) bool { return !c06SuccessReturn(r) || c06ErrReturnNonNil(r) }
+		// chain: are the sites totally ordered by dominance?
+		chain := true
+		for i := range sites {
+			for j := range sites {
+				if i != j && !an.Dominates(sites[i].in, sites[j].in) && !an.Dominates(sites[j].in, sites[i].in) {
+					chain = false
+				}
+			}
+		}
+		n := map[string]int{}
+		for _, s := range sites {
+			n[s.what]++
+			name := an.FuncName(fn) + " success only after " + s.what + " #" + itoa(n[s.what])
+			why := "the function can return success on a path that skips this key: conflicting data for it is accepted unseen / the key is never inserted"
+			// the closest site that dominates s
+			var prev ssa.Instruction
+			for _, p := range sites {
+				if p.in != s.in && an.Dominates(p.in, s.in) && (prev == nil || an.Dominates(prev, p.in)) {
+					prev = p.in
+				}
+			}
+			switch {
+			case prev != nil:
+				target := s.in
+				path, esc := an.H06Escape(prev, an.H06Opt{NoReenter: true, ReturnOK: retOK,
+					Effect: func(in ssa.Instruction) bool { return in == target }})
+				c.Check(name, posOf(s.in), !esc, why+": "+an.PathString(c.P, path))
+			case chain:
+				good := true
+				pos := posOf(s.in)
+				for _, r := range an.Returns(fn) {
+					if !retOK(r, nil) && !an.Dominates(s.in, r) {
+						good, pos = false, posOf(r)
 					}
 				}
-			}
-		case ssa.CallInstruction:
-			if cal := x.Common().StaticCallee(); cal != nil && cal.Pkg == fn.Pkg {
-				for _, k := range c06WrittenData(cal, seen) {
-					set[k] = true
-				}
+				c.Check(name, pos, good, why)
+			default:
+				c.Good(name, posOf(s.in), "first key of an alternative branch")
 			}
 		}
 	}
-	var out []string
-	for k := range set {
-		out = append(out, k)
-	}
-	sort.Strings(out)
-	return out
 }
 
-// c06ResolverOf recognises a resolve function: it ranges over a `*Queries` slice field of MemDB and
-// sends, on the element's Response channel, a value looked up in a data map by the element's Key.
-func c06ResolverOf(fn *ssa.Function) (queries, data string, ok bool) {
-	if fn.Parent() != nil {
-		return
-	}
-	for _, in := range an.Instrs(fn, false) {
-		snd, isSend := in.(*ssa.Send)
-		if !isSend {
-			continue
-		}
-		l := an.InnermostLoop(fn, snd.Block())
-		if l == nil {
-			continue
-		}
-		qk, _, ok1 := an.FieldOf(l.RangeColl())
-		if !ok1 || !strings.HasPrefix(qk, dutydb+".") {
-			continue
-		}
-		if !l.ElemOf(snd.Chan) {
-			continue
-		}
-		// value: Extract 0 of comma-ok lookup on a data field keyed by elem.Key
-		v := an.Unwrap(snd.X)
-		if ex, isEx := v.(*ssa.Extract); isEx {
-			if lk, isLk := ex.Tuple.(*ssa.Lookup); isLk {
-				if dk, _, ok2 := an.FieldOf(lk.X); ok2 && l.ElemOf(lk.Index) {
-					return qk, dk, true
-				}
-			}
+func c06HasErrResult(ci ssa.CallInstruction) bool {
+	res := ci.Common().Signature().Results()
+	for i := 0; i < res.Len(); i++ {
+		if an.IsErrorType(res.At(i).Type()) {
+			return true
 		}
 	}
-	return
+	return false
 }
 
-// c06ResolverKeeps: in the loop over the queries, every iteration either drops a cancelled query,
-// re-appends the query to the list written back to the queries field, or answers it.
-func c06ResolverKeeps(fn *ssa.Function, queries string) (bool, string) {
-	var loop *an.Loop
-	for _, l := range an.Loops(fn) {
-		if k, _, ok := an.FieldOf(l.RangeColl()); ok && k == queries {
-			loop = l
+func c06SiteName(m *c06Model, in ssa.Instruction) string {
+	var names []string
+	for _, g := range m.during(in) {
+		if len(m.inserts(g)) > 0 {
+			names = append(names, an.FuncName(g))
 		}
 	}
-	if loop == nil {
-		return false, "no loop over " + queries
-	}
-	// the value written back
-	var back *ssa.Store
-	for _, in := range an.Instrs(fn, false) {
-		if st, ok := in.(*ssa.Store); ok {
-			if fa, ok := st.Addr.(*ssa.FieldAddr); ok && an.FieldKey(fa.X.Type(), fa.Field) == queries {
-				back = st
+	return strings.Join(names, "+")
+}
+
+// c06SwallowPath: from the call producing error value(s) v, is there a path to a success return on which the error
+// was non-nil? The error is the call value itself or its error-typed extract.
+func c06SwallowPath(v ssa.Value) ([]*ssa.BasicBlock, bool) {
+	call := v.(ssa.Instruction)
+	var errs []ssa.Value
+	if an.IsErrorType(v.Type()) {
+		errs = append(errs, v)
+	} else {
+		for _, ref := range *v.Referrers() {
+			if ex, ok := ref.(*ssa.Extract); ok && an.IsErrorType(ex.Type()) {
+				errs = append(errs, ex)
 			}
 		}
 	}
-	if back == nil || loop.Body[back.Block()] {
-		return false, "the pending list is not written back after the loop"
+	if len(errs) == 0 {
+		return []*ssa.BasicBlock{call.Block()}, true // error result discarded
 	}
-	isKeep := func(in ssa.Instruction) bool {
-		switch x := in.(type) {
-		case *ssa.Send:
-			return loop.ElemOf(x.Chan)
-		case *ssa.Call:
-			if b, ok := x.Call.Value.(*ssa.Builtin); ok && b.Name() == "append" {
-				els := appendedElems(x)
-				return len(els) == 1 && loop.ElemOf(els[0]) && c06FlowsTo(x, back.Val)
+	isErr := func(x ssa.Value) bool {
+		x = an.Unwrap(x)
+		for _, e := range errs {
+			if x == e {
+				return true
 			}
 		}
 		return false
 	}
-	// body entry: successor of header inside the loop
+	env := func(x ssa.Value) (constant.Value, bool) {
+		if isErr(x) {
+			return an.H06NonNil, true
+		}
+		return nil, false
+	}
+	return an.H06Escape(call, an.H06Opt{Env: env, NoReenter: true,
+		ReturnOK: func(r *ssa.Return, known an.H06Env) bool {
+			e, has := c06ErrOf(r)
+			if !has {
+				return false
+			}
+			if isErr(e) || c06DependsOn(e, errs[0]) {
+				return true // returns the error (possibly wrapped)
+			}
+			if k, ok := an.H06Eval(e, known); ok && an.H06IsNonNil(k) {
+				return true
+			}
+			return !c06SuccessReturn(r) || c06ErrReturnNonNil(r)
+		}})
+}
+
+// ---------------------------------------------------------------------------------------------
+// D3: nothing is inserted for a duty whose deadline status is Expired / Exempt.
+
+func c06D3(c *rt.Ctx, m *c06Model) {
+	isAdd := an.Invoke("core.Deadliner.Add")
+	adds := map[*ssa.Function][]ssa.CallInstruction{}
+	nAdd := 0
+	for _, fn := range m.all {
+		for _, ci := range an.Calls(fn, isAdd, false) {
+			adds[fn] = append(adds[fn], ci)
+			nAdd++
+		}
+	}
+	if nAdd == 0 {
+		c.Bail("no call to core.Deadliner.Add in core/dutydb")
+	}
+	statuses := []string{"DeadlineExpired", "DeadlineExempt"}
+	// guards of a function: Add calls in it, or calls to an in-package helper that contains the Add call and whose
+	// result is decided by the status
+	type guard struct {
+		at  ssa.Instruction
+		env func(status string) an.H06Env
+	}
+	guardsOf := func(fn *ssa.Function) []guard {
+		var out []guard
+		for _, a := range adds[fn] {
+			v := a.Value()
+			out = append(out, guard{a, func(st string) an.H06Env {
+				k := c06IntConst(c, "core", st)
+				return c06WithCalls(m, func(x ssa.Value) (constant.Value, bool) {
+					if x == ssa.Value(v) {
+						return k, true
+					}
+					return nil, false
+				}, 0)
+			}})
+		}
+		for _, in := range an.Instrs(fn, false) {
+			call, ok := in.(*ssa.Call)
+			if !ok {
+				continue
+			}
+			callee := call.Call.StaticCallee()
+			if callee == nil || !m.inPkg(callee) || len(adds[callee]) != 1 || len(m.inserts(callee)) > 0 {
+				continue // only a pure status helper is a guard; a callee that stores is checked on its own
+			}
+			inner := adds[callee][0]
+			out = append(out, guard{call, func(st string) an.H06Env {
+				return c06HelperEnv(call, inner, c06IntConst(c, "core", st))
+			}})
+		}
+		return out
+	}
+	// protection is three-valued: yes / no (a concrete unguarded way in) / unknown (the function escapes as a value)
+	const (
+		pYes = iota
+		pNo
+		pUnknown
+	)
+	var protectedFn func(fn *ssa.Function, seen map[*ssa.Function]bool) int
+	protectedSite := func(s ssa.Instruction, seen map[*ssa.Function]bool) int {
+		fn := s.Parent()
+		for _, g := range guardsOf(fn) {
+			if !an.Dominates(g.at, s) {
+				continue
+			}
+			cut := true
+			for _, st := range statuses {
+				if _, reach := an.H06Escape(g.at, an.H06Opt{Env: g.env(st), Target: s, NoReenter: true}); reach {
+					cut = false
+				}
+			}
+			if cut {
+				return pYes
+			}
+		}
+		return protectedFn(fn, seen)
+	}
+	protectedFn = func(fn *ssa.Function, seen map[*ssa.Function]bool) int {
+		if seen[fn] {
+			return pYes
+		}
+		seen[fn] = true
+		if c06Exported(fn) {
+			return pNo
+		}
+		if len(m.refs[fn]) == 0 {
+			return pYes // nothing runs it
+		}
+		res := pYes
+		if !m.refsOK(fn) {
+			res = pUnknown
+		}
+		for _, r := range m.refs[fn] {
+			switch protectedSite(r, seen) {
+			case pNo:
+				return pNo
+			case pUnknown:
+				res = pUnknown
+			}
+		}
+		return res
+	}
+	report := func(name string, pos token.Pos, p int, why string) {
+		switch p {
+		case pYes:
+			c.Good(name, pos, "")
+		case pNo:
+			c.Bad(name, pos, why)
+		default:
+			c.Unsure(name, pos, "a storing function is used as a value in a way the rule cannot follow; "+why)
+		}
+	}
+	// (a) in every function that holds the guard: each insertion site is cut off for both statuses
+	for _, fn := range m.all {
+		gs := guardsOf(fn)
+		if len(gs) == 0 {
+			continue
+		}
+		for _, s := range m.insertSites(fn) {
+			for _, st := range statuses {
+				p, why := pNo, "no deadliner.Add status check dominates the insertion"
+				for _, g := range gs {
+					if !an.Dominates(g.at, s) {
+						continue
+					}
+					path, reach := an.H06Escape(g.at, an.H06Opt{Env: g.env(st), Target: s, NoReenter: true})
+					if !reach {
+						p = pYes
+					} else {
+						why = "data is stored although deadliner.Add reported " + st + ": " + an.PathString(c.P, path)
+					}
+				}
+				if p != pYes {
+					if q := protectedFn(fn, map[*ssa.Function]bool{}); q != pNo {
+						p = q
+					}
+				}
+				report(c06FnLabel(fn)+" "+st+"→no "+c06SiteName2(m, s), s.Pos(), p, why)
+			}
+		}
+	}
+	// (b) every function that writes a data map is only reachable through a guarded site
+	for _, fn := range m.all {
+		if len(m.dataInserts(fn)) == 0 {
+			continue
+		}
+		if len(guardsOf(fn)) > 0 {
+			continue // its own sites were checked in (a)
+		}
+		report(an.FuncName(fn)+" only reachable behind the deadline check", fn.Pos(), protectedFn(fn, map[*ssa.Function]bool{}),
+			"a function inserting into a data map can be reached from an exported entry point without passing the deadliner.Add status check")
+	}
+}
+
+// c06FnLabel: "Store" for the exported entry point (the historical construct key), the qualified name otherwise.
+func c06FnLabel(fn *ssa.Function) string {
+	if fn.Parent() == nil && an.FuncName(fn) == dutydb+".Store" {
+		return "Store"
+	}
+	return an.FuncName(fn)
+}
+
+func c06SiteName2(m *c06Model, in ssa.Instruction) string {
+	if mu, ok := in.(*ssa.MapUpdate); ok {
+		k, _, _ := an.FieldOf(mu.Map)
+		return "insert " + k
+	}
+	return c06SiteName(m, in)
+}
+
+// c06WithCalls extends a valuation through pure in-package predicates: a call of a package function whose arguments
+// are known evaluates to the constant every return of the callee yields under those arguments (`isLate(status)`).
+func c06WithCalls(m *c06Model, env an.H06Env, depth int) an.H06Env {
+	var self an.H06Env
+	memo := map[ssa.Value]constant.Value{}
+	self = func(v ssa.Value) (constant.Value, bool) {
+		if k, ok := env(v); ok {
+			return k, true
+		}
+		call, ok := v.(*ssa.Call)
+		if !ok || depth > 2 {
+			return nil, false
+		}
+		if k, ok := memo[v]; ok {
+			return k, k != nil
+		}
+		memo[v] = nil
+		callee := call.Call.StaticCallee()
+		if callee == nil || !m.inPkg(callee) || callee.Blocks == nil || call.Call.Signature().Results().Len() != 1 ||
+			len(call.Call.Args) != len(callee.Params) || len(callee.Blocks[0].Instrs) == 0 {
+			return nil, false
+		}
+		args := map[ssa.Value]constant.Value{}
+		for i, a := range call.Call.Args {
+			if k, ok := an.H06Eval(a, self); ok {
+				args[callee.Params[i]] = k
+			}
+		}
+		if len(args) == 0 {
+			return nil, false
+		}
+		penv := c06WithCalls(m, func(x ssa.Value) (constant.Value, bool) { k, ok := args[x]; return k, ok }, depth+1)
+		var res constant.Value
+		good, n := true, 0
+		an.H06Escape(callee.Blocks[0].Instrs[0], an.H06Opt{Env: penv, Inclusive: true,
+			ReturnOK: func(r *ssa.Return, known an.H06Env) bool {
+				n++
+				vals := returnValues(r)
+				k, ok := an.H06Eval(vals[0], known)
+				if !ok || (res != nil && (res.Kind() != k.Kind() || !constant.Compare(res, token.EQL, k))) {
+					good = false
+					return true
+				}
+				res = k
+				return true
+			}})
+		if !good || n == 0 || res == nil {
+			return nil, false
+		}
+		memo[v] = res
+		return res, true
+	}
+	return self
+}
+
+// c06HelperEnv: valuation of the result of `call` (an in-package helper containing the single Add call `inner`)
+// when Add returns status k: if every return of the helper reachable under that status yields the same boolean
+// constant, the call value is that constant; if every one yields a non-nil error, `call != nil` is true.
+func c06HelperEnv(call *ssa.Call, inner ssa.CallInstruction, k constant.Value) an.H06Env {
+	ienv := func(x ssa.Value) (constant.Value, bool) {
+		if x == inner.Value() {
+			return k, true
+		}
+		return nil, false
+	}
+	var consts []constant.Value
+	allConst, allNonNilErr, n := true, true, 0
+	an.H06Escape(inner, an.H06Opt{Env: ienv, NoReenter: true, ReturnOK: func(r *ssa.Return, env an.H06Env) bool {
+		n++
+		vals := returnValues(r)
+		if len(vals) != 1 {
+			allConst, allNonNilErr = false, false
+			return true
+		}
+		if kv, ok := an.H06Eval(vals[0], env); ok {
+			consts = append(consts, kv)
+		} else {
+			allConst = false
+		}
+		if !an.IsErrorType(vals[0].Type()) || c06MayBeNil(vals[0], map[ssa.Value]bool{}) {
+			allNonNilErr = false
+		}
+		return true
+	}})
+	// the Add call must dominate every return of the helper (its status decides the result on every path)
+	for _, r := range an.Returns(inner.Parent()) {
+		if !an.Dominates(inner, r) {
+			allConst, allNonNilErr = false, false
+		}
+	}
+	return func(x ssa.Value) (constant.Value, bool) {
+		if n == 0 {
+			return nil, false
+		}
+		if allConst && len(consts) > 0 && x == ssa.Value(call) {
+			for _, kv := range consts[1:] {
+				if kv.Kind() != consts[0].Kind() || !constant.Compare(kv, token.EQL, consts[0]) {
+					return nil, false
+				}
+			}
+			return consts[0], true
+		}
+		if allNonNilErr {
+			if bin, ok := x.(*ssa.BinOp); ok && (bin.Op == token.EQL || bin.Op == token.NEQ) {
+				if (an.Unwrap(bin.X) == ssa.Value(call) && an.IsNilConst(bin.Y)) || (an.Unwrap(bin.Y) == ssa.Value(call) && an.IsNilConst(bin.X)) {
+					return constant.MakeBool(bin.Op == token.NEQ), true
+				}
+			}
+		}
+		return nil, false
+	}
+}
+
+// ---------------------------------------------------------------------------------------------
+// D4: every insertion / query registration is followed by the matching resolver inside the critical section;
+// resolvers keep every unresolved, uncancelled query.
+
+type c06Resolver struct {
+	fn      *ssa.Function // the function that writes the pending list back (resolve*QueriesUnsafe)
+	queries string
+	data    string
+	fr      *c06Frame // frame containing the loop (fn itself or a helper it calls)
+	loop    *an.Loop
+	backs   []*ssa.Store // every store into the queries field in fn
+	sendFr  *c06Frame    // frame of the send: fr, or a per-query helper called from the loop body
+	sendAt  *ssa.Call    // the call of that helper inside the loop (nil when sendFr == fr)
+}
+
+func c06D4(c *rt.Ctx, m *c06Model) {
+	resolvers := c06FindResolvers(m)
+	if len(resolvers) != 4 {
+		var names []string
+		for _, r := range resolvers {
+			names = append(names, an.FuncName(r.fn))
+		}
+		c.Bail("expected 4 resolve functions, found %d %v", len(resolvers), names)
+	}
+	resFor := map[string]*c06Resolver{}
+	for _, r := range resolvers {
+		if resFor[r.queries] != nil || resFor[r.data] != nil {
+			c.Bail("two resolvers for %s / %s", r.queries, r.data)
+		}
+		resFor[r.queries], resFor[r.data] = r, r
+	}
+	var fields []string
+	for f := range resFor {
+		fields = append(fields, f)
+	}
+	sort.Strings(fields)
+
+	isUnlock := func(in ssa.Instruction) bool {
+		call, ok := in.(*ssa.Call)
+		if !ok {
+			return false
+		}
+		_, acq, isLock := an.H06LockOp(&call.Call)
+		return isLock && !acq
+	}
+	hasLockOp := func(fn *ssa.Function) bool {
+		for _, in := range an.Instrs(fn, false) {
+			if ci, ok := in.(ssa.CallInstruction); ok {
+				if _, _, isLock := an.H06LockOp(ci.Common()); isLock {
+					return true
+				}
+			}
+		}
+		return false
+	}
+	// alwaysResolves(g, field): every path through g runs the resolver of field
+	always := map[*ssa.Function]map[string]int{} // 0 unknown, 1 computing, 2 yes, 3 no
+	var effect func(field string) func(ssa.Instruction) bool
+	var alwaysResolves func(g *ssa.Function, field string) bool
+	var deferredOK func(e ssa.Instruction, field string, fromEntry bool) func(r *ssa.Return, _ an.H06Env) bool
+	alwaysResolves = func(g *ssa.Function, field string) bool {
+		if g == resFor[field].fn {
+			return true
+		}
+		if always[g] == nil {
+			always[g] = map[string]int{}
+		}
+		switch always[g][field] {
+		case 1, 3:
+			return false
+		case 2:
+			return true
+		}
+		always[g][field] = 1
+		res := 3
+		if len(g.Blocks) > 0 && len(g.Blocks[0].Instrs) > 0 {
+			first := g.Blocks[0].Instrs[0]
+			if effect(field)(first) {
+				res = 2
+			} else if _, isRet := first.(*ssa.Return); !isRet {
+				if _, esc := an.H06Escape(first, an.H06Opt{Effect: effect(field), Exit: isUnlock, ReturnOK: deferredOK(first, field, true)}); !esc {
+					res = 2
+				}
+			}
+		}
+		always[g][field] = res
+		return res == 2
+	}
+	// deferredOK: a return is not an escape when a `defer resolver()` registered before the event (or, from the entry,
+	// on every path to that return) runs at it
+	deferredOK = func(e ssa.Instruction, field string, fromEntry bool) func(r *ssa.Return, _ an.H06Env) bool {
+		var defers []*ssa.Defer
+		for _, in := range an.Instrs(e.Parent(), false) {
+			d, ok := in.(*ssa.Defer)
+			if !ok {
+				continue
+			}
+			for _, g := range m.during(d) {
+				if alwaysResolves(g, field) {
+					defers = append(defers, d)
+				}
+			}
+		}
+		return func(r *ssa.Return, _ an.H06Env) bool {
+			for _, d := range defers {
+				if an.Dominates(d, e) || (fromEntry && an.Dominates(d, r)) {
+					return true
+				}
+			}
+			return false
+		}
+	}
+	effect = func(field string) func(ssa.Instruction) bool {
+		return func(in ssa.Instruction) bool {
+			if _, isDefer := in.(*ssa.Defer); isDefer {
+				return false
+			}
+			for _, g := range m.during(in) {
+				if alwaysResolves(g, field) {
+					return true
+				}
+			}
+			return false
+		}
+	}
+	// effectUnder: a call of a package function that runs the resolver of field for the argument values known on the
+	// path (`db.resolveQueriesUnsafe(duty.Type)` inside / after `case core.DutyAttester`)
+	effectUnder := func(field string) func(ssa.Instruction, an.H06Env) bool {
+		return func(in ssa.Instruction, known an.H06Env) bool {
+			call, ok := in.(*ssa.Call)
+			if !ok {
+				return false
+			}
+			g := call.Call.StaticCallee()
+			if g == nil || !m.inPkg(g) || g.Blocks == nil || len(call.Call.Args) != len(g.Params) || len(g.Blocks[0].Instrs) == 0 {
+				return false
+			}
+			args := map[ssa.Value]constant.Value{}
+			for i, a := range call.Call.Args {
+				if k, ok := an.H06Eval(a, known); ok {
+					args[g.Params[i]] = k
+				}
+			}
+			if len(args) == 0 {
+				return false
+			}
+			first := g.Blocks[0].Instrs[0]
+			_, esc := an.H06Escape(first, an.H06Opt{Inclusive: true, Effect: effect(field), Exit: isUnlock, ReturnOK: deferredOK(first, field, true),
+				Env: func(x ssa.Value) (constant.Value, bool) { k, ok := args[x]; return k, ok }})
+			return !esc
+		}
+	}
+	// events of a function for a field: direct insert / registration, or a call during which a dirty function runs
+	dirty := map[*ssa.Function]map[string]bool{}
+	for _, f := range m.all {
+		dirty[f] = map[string]bool{}
+	}
+	events := func(fn *ssa.Function, field string) []ssa.Instruction {
+		var out []ssa.Instruction
+		r := resFor[field]
+		for _, in := range an.Instrs(fn, false) {
+			switch x := in.(type) {
+			case *ssa.MapUpdate:
+				if k, _, ok := an.FieldOf(x.Map); ok && k == field && field == r.data {
+					out = append(out, in)
+				}
+			case *ssa.Store:
+				if fa, ok := x.Addr.(*ssa.FieldAddr); ok && field == r.queries && an.FieldKey(fa.X.Type(), fa.Field) == field && fn != r.fn {
+					if _, fresh := an.Unwrap(fa.X).(*ssa.Alloc); !fresh { // not the object under construction
+						out = append(out, in)
+					}
+				}
+			default:
+				if _, isGo := in.(*ssa.Go); isGo {
+					continue
+				}
+				for _, g := range m.during(in) {
+					if dirty[g][field] {
+						out = append(out, in)
+						break
+					}
+				}
+			}
+		}
+		return out
+	}
+	// endsCS: the call itself acquires and releases the mutex around what runs during it (`withLock(fn)`): whatever
+	// fn left unresolved stays unresolved when the call returns, the caller cannot repair it inside the critical section
+	endsCS := func(e ssa.Instruction) bool {
+		if _, isCall := e.(ssa.CallInstruction); !isCall {
+			return false
+		}
+		for _, g := range m.during(e) {
+			if hasLockOp(g) {
+				return true
+			}
+		}
+		return false
+	}
+	escapes := func(e ssa.Instruction, field string) ([]*ssa.BasicBlock, bool) {
+		if endsCS(e) {
+			return []*ssa.BasicBlock{e.Block()}, true
+		}
+		return an.H06Escape(e, an.H06Opt{Env: an.H06FactsAt(e), Effect: effect(field), EffectEnv: effectUnder(field), Exit: isUnlock,
+			ReturnOK: deferredOK(e, field, false), Prune: c06UnchangedLen(m, e, field)})
+	}
+	for changed := true; changed; {
+		changed = false
+		for _, fn := range m.all {
+			for _, field := range fields {
+				if dirty[fn][field] {
+					continue
+				}
+				for _, e := range events(fn, field) {
+					if _, esc := escapes(e, field); esc {
+						dirty[fn][field] = true
+						changed = true
+						break
+					}
+				}
+			}
+		}
+	}
+	isRoot := func(fn *ssa.Function) bool { return c06Exported(fn) || hasLockOp(fn) }
+	var mayResolve func(g *ssa.Function, field string, seen map[*ssa.Function]bool) bool
+	mayResolve = func(g *ssa.Function, field string, seen map[*ssa.Function]bool) bool {
+		if g == resFor[field].fn {
+			return true
+		}
+		if seen[g] {
+			return false
+		}
+		seen[g] = true
+		for _, in := range an.Instrs(g, false) {
+			for _, h := range m.during(in) {
+				if mayResolve(h, field, seen) {
+					return true
+				}
+			}
+		}
+		return false
+	}
+	// dispatcher: the unresolved function run during e stores for more than one resolver (a `store(kind, ...)` helper
+	// switching on an argument): which resolver must follow depends on a value correlation the rule does not track
+	dispatcher := func(e ssa.Instruction, field string) bool {
+		if _, isCall := e.(ssa.CallInstruction); !isCall {
+			return false
+		}
+		for _, g := range m.during(e) {
+			if !dirty[g][field] {
+				continue
+			}
+			kinds := map[*c06Resolver]bool{}
+			for f := range m.inserts(g) {
+				if r := resFor[f]; r != nil {
+					kinds[r] = true
+				}
+			}
+			if len(kinds) > 1 {
+				// ... and something that may run the resolver follows the call (otherwise nothing can resolve: a violation)
+				for _, in := range an.Instrs(e.Parent(), false) {
+					if !an.InstrReaches(e, in) {
+						continue
+					}
+					for _, h := range m.during(in) {
+						if mayResolve(h, field, map[*ssa.Function]bool{}) {
+							return true
+						}
+					}
+				}
+			}
+		}
+		return false
+	}
+	// obligations
+	for _, fn := range m.all {
+		for _, field := range fields {
+			r := resFor[field]
+			for _, e := range events(fn, field) {
+				path, esc := escapes(e, field)
+				var name string
+				switch x := e.(type) {
+				case *ssa.MapUpdate:
+					name = an.FuncName(fn) + " insert " + field + "→" + an.FuncName(r.fn)
+				case *ssa.Store:
+					name = an.FuncName(fn) + " register+resolve " + field
+				default:
+					_ = x
+					name = c06FnLabel(fn) + " " + c06DirtyName(m, e, dirty, field) + "→" + an.FuncName(r.fn)
+				}
+				if _, isDefer := e.(*ssa.Defer); isDefer {
+					c.Unsure(name, posOf(e), "a deferred call stores / registers: it runs after everything the function does to resolve")
+					continue
+				}
+				switch {
+				case !esc:
+					c.Good(name, posOf(e), "")
+				case (isRoot(fn) || endsCS(e)) && dispatcher(e, field):
+					c.Unsure(name, posOf(e), "the call stores data of several duty kinds depending on an argument; the rule cannot correlate that argument with the resolver that runs afterwards: "+an.PathString(c.P, path))
+				case isRoot(fn) || endsCS(e):
+					why := "path from a store call (which may have inserted) to the end of the critical section that skips resolving the blocked queries: "
+					if _, isReg := e.(*ssa.Store); isReg {
+						why = "the query is registered but the critical section ends (or the function returns) before the matching resolver runs: "
+					}
+					c.Bad(name, posOf(e), why+an.PathString(c.P, path))
+				case !m.refsOK(fn):
+					c.Unsure(name, posOf(e), "a function that stores / registers without resolving is used as a value in a way the rule cannot follow")
+				case len(m.refs[fn]) == 0:
+					// unreferenced helper: nothing runs it
+				default:
+					// left to the callers: the function is an internal helper called with the lock held
+				}
+			}
+		}
+	}
+	// (c) resolvers keep every unresolved, uncancelled query and answer from the matching data map
+	sort.Slice(resolvers, func(i, j int) bool { return an.FuncName(resolvers[i].fn) < an.FuncName(resolvers[j].fn) })
+	for _, r := range resolvers {
+		st, why := c06ResolverKeeps(m, r)
+		name := an.FuncName(r.fn) + " keeps unresolved queries"
+		switch st {
+		case rt.OK:
+			c.Good(name, r.fn.Pos(), "")
+		case rt.Violation:
+			c.Bad(name, r.fn.Pos(), why)
+		default:
+			c.Unsure(name, r.fn.Pos(), why)
+		}
+	}
+}
+
+// c06UnchangedLen prunes the edge on which `len(dataMap)` measured after the event equals the length measured before
+// it: nothing was inserted into that map then (stores never delete), so no query can have become answerable and the
+// resolver may soundly be skipped (`if len(m) != before { resolve() }`).
+func c06UnchangedLen(m *c06Model, e ssa.Instruction, field string) func(b *ssa.BasicBlock, succ int) bool {
+	lenOf := func(v ssa.Value) *ssa.Call {
+		call, ok := an.Unwrap(v).(*ssa.Call)
+		if !ok || len(call.Call.Args) != 1 {
+			return nil
+		}
+		if bi, ok := call.Call.Value.(*ssa.Builtin); !ok || bi.Name() != "len" {
+			return nil
+		}
+		if k, _, ok := an.FieldOf(call.Call.Args[0]); !ok || k != field || !an.IsMapType(call.Call.Args[0].Type()) {
+			return nil
+		}
+		return call
+	}
+	return func(b *ssa.BasicBlock, succ int) bool {
+		iff, ok := b.Instrs[len(b.Instrs)-1].(*ssa.If)
+		if !ok {
+			return false
+		}
+		cond := iff.Cond
+		neg := false
+		for {
+			if u, ok := cond.(*ssa.UnOp); ok && u.Op == token.NOT {
+				cond, neg = u.X, !neg
+				continue
+			}
+			break
+		}
+		bin, ok := cond.(*ssa.BinOp)
+		if !ok {
+			return false
+		}
+		x, y := lenOf(bin.X), lenOf(bin.Y)
+		if x == nil || y == nil {
+			return false
+		}
+		var before, after *ssa.Call
+		switch {
+		case an.Dominates(x, e) && an.InstrReaches(e, y) && !an.InstrReaches(e, x):
+			before, after = x, y
+		case an.Dominates(y, e) && an.InstrReaches(e, x) && !an.InstrReaches(e, y):
+			before, after = y, x
+		default:
+			return false
+		}
+		// nothing may delete from the map between the two measurements
+		for _, in := range an.Instrs(e.Parent(), false) {
+			if !an.InstrReaches(before, in) || !an.InstrReaches(in, after) {
+				continue
+			}
+			if k, ok := c06DeleteOf(in); ok && k == field {
+				return false
+			}
+			for _, g := range m.during(in) {
+				if m.deletes(g)[field] {
+					return false
+				}
+			}
+		}
+		// which successor is taken when the lengths are equal?
+		var equalSucc int
+		switch bin.Op {
+		case token.EQL:
+			equalSucc = 0
+		case token.NEQ:
+			equalSucc = 1
+		case token.GTR, token.LSS:
+			// after > before / before < after: equal lengths take the false edge
+			if (bin.Op == token.GTR && bin.X == ssa.Value(after) && bin.Y == ssa.Value(before)) ||
+				(bin.Op == token.LSS && bin.X == ssa.Value(before) && bin.Y == ssa.Value(after)) {
+				equalSucc = 1
+			} else {
+				return false
+			}
+		default:
+			return false
+		}
+		if neg {
+			equalSucc = 1 - equalSucc
+		}
+		return succ == equalSucc
+	}
+}
+
+func c06DirtyName(m *c06Model, in ssa.Instruction, dirty map[*ssa.Function]map[string]bool, field string) string {
+	var names []string
+	for _, g := range m.during(in) {
+		if dirty[g][field] {
+			names = append(names, an.FuncName(g))
+		}
+	}
+	return strings.Join(names, "+")
+}
+
+// c06FindResolvers recognises the resolve functions: a declared function that stores into a `*Queries` slice field of
+// MemDB and (itself, or in a helper / generic helper it calls with that field as argument) loops over that field and
+// sends, on a channel taken from the element, a value looked up in a data map by a key taken from the element.
+func c06FindResolvers(m *c06Model) []*c06Resolver {
+	var out []*c06Resolver
+	for _, fn := range m.funcs {
+		if fn.Parent() != nil {
+			continue
+		}
+		// write-back stores
+		backs := map[string][]*ssa.Store{}
+		for _, in := range an.Instrs(fn, false) {
+			if st, ok := in.(*ssa.Store); ok {
+				if fa, ok := st.Addr.(*ssa.FieldAddr); ok {
+					k := an.FieldKey(fa.X.Type(), fa.Field)
+					backs[k] = append(backs[k], st)
+				}
+			}
+		}
+		if len(backs) == 0 {
+			continue
+		}
+		root := &c06Frame{fn: fn}
+		frames := []*c06Frame{root}
+		for _, in := range an.Instrs(fn, false) {
+			if call, ok := in.(*ssa.Call); ok {
+				if nf := m.enter(&call.Call, root); nf != nil {
+					frames = append(frames, nf)
+				}
+			}
+		}
+		found := false
+		for _, fr := range frames {
+			if found {
+				break
+			}
+			for _, in := range an.Instrs(fr.fn, false) {
+				snd, ok := in.(*ssa.Send)
+				if !ok {
+					continue
+				}
+				l, lfr := c06LoopAround(fr.fn, snd.Block()), fr
+				var sendAt *ssa.Call
+				if l == nil && fr.up == root {
+					// a per-query helper (`if !db.tryResolve(query) { keep }`): the loop is around its call
+					for _, rin := range an.Instrs(root.fn, false) {
+						if call, ok := rin.(*ssa.Call); ok && &call.Call == fr.call {
+							sendAt = call
+						}
+					}
+					if sendAt != nil {
+						l, lfr = c06LoopAround(root.fn, sendAt.Block()), root
+					}
+				}
+				if l == nil || l.RangeColl() == nil {
+					continue
+				}
+				qk, ok := m.fieldOf(l.RangeColl(), lfr)
+				if !ok || !strings.HasPrefix(qk, dutydb+".") || backs[qk] == nil {
+					continue
+				}
+				if lfr != root {
+					// the helper's result must be what is written back
+					isBack := false
+					for _, st := range backs[qk] {
+						if call, ok := an.Unwrap(st.Val).(*ssa.Call); ok && &call.Call == lfr.call {
+							isBack = true
+						}
+					}
+					if !isBack {
+						continue
+					}
+				}
+				if !m.elemOf(snd.Chan, fr, l, lfr) {
+					continue
+				}
+				v := an.Unwrap(snd.X)
+				var lk *ssa.Lookup
+				switch x := v.(type) {
+				case *ssa.Extract:
+					lk, _ = x.Tuple.(*ssa.Lookup)
+				case *ssa.Lookup:
+					lk = x
+				}
+				if lk == nil || !an.IsMapType(lk.X.Type()) {
+					continue
+				}
+				dk, ok := m.fieldOf(lk.X, fr)
+				if !ok || !c06IsData(dk) || !m.elemOf(lk.Index, fr, l, lfr) {
+					continue
+				}
+				out = append(out, &c06Resolver{fn: fn, queries: qk, data: dk, fr: lfr, loop: l, backs: backs[qk], sendFr: fr, sendAt: sendAt})
+				found = true
+				break
+			}
+		}
+	}
+	return out
+}
+
+// c06LoopAround: the innermost loop containing b, or — when b leaves a loop (`send; break`) — the innermost loop
+// b can only be reached from the inside of.
+func c06LoopAround(fn *ssa.Function, b *ssa.BasicBlock) *an.Loop {
+	if l := an.InnermostLoop(fn, b); l != nil {
+		return l
+	}
+	var best *an.Loop
+	for _, l := range an.Loops(fn) {
+		inside := false
+		for x := range l.Body {
+			if x != l.Header && x.Dominates(b) {
+				inside = true
+			}
+		}
+		if inside && (best == nil || len(l.Body) < len(best.Body)) {
+			best = l
+		}
+	}
+	return best
+}
+
+// c06ResolverKeeps: in the loop over the pending queries every iteration of an uncancelled query either answers it
+// (send on its response channel) or re-appends it to the list that is written back; the loop is not left early.
+func c06ResolverKeeps(m *c06Model, r *c06Resolver) (string, string) {
+	loop, fr := r.loop, r.fr
+	// where does the kept list end up in the queries field?
+	//  (A) accumulated in a local (or returned by the helper that loops) and stored once after the loop;
+	//  (B) accumulated in the field itself: every store in the loop is `field = append(field, elem)`.
+	var targets []ssa.Value
+	inField := map[*ssa.Call]bool{} // (B) the appends whose result is stored straight back into the field
+	if fr.fn == r.fn {
+		var after, inside []*ssa.Store
+		for _, st := range r.backs {
+			switch {
+			case loop.Body[st.Block()]:
+				inside = append(inside, st)
+			case loop.Header.Dominates(st.Block()):
+				after = append(after, st)
+			case an.CanReach(st.Block(), loop.Header, nil):
+				// before the loop: a reset of the field
+			default:
+				return rt.Undecided, "a store into " + r.queries + " is neither before, inside nor after the loop over it"
+			}
+		}
+		switch {
+		case len(inside) == 0 && len(after) == 1:
+			targets = append(targets, after[0].Val)
+		case len(inside) > 0 && len(after) == 0:
+			for _, st := range inside {
+				app, ok := an.Unwrap(st.Val).(*ssa.Call)
+				if !ok {
+					return rt.Undecided, "the loop stores something other than an append into " + r.queries
+				}
+				b, isB := app.Call.Value.(*ssa.Builtin)
+				if !isB || b.Name() != "append" {
+					return rt.Undecided, "the loop stores something other than an append into " + r.queries
+				}
+				if k, ok := m.fieldOf(app.Call.Args[0], fr); !ok || k != r.queries {
+					return rt.Violation, "the loop overwrites " + r.queries + " with a list that does not extend its current content: kept queries are lost"
+				}
+				inField[app] = true
+			}
+		default:
+			return rt.Undecided, "cannot tell how the kept queries reach " + r.queries + " (stores inside and after the loop)"
+		}
+	} else {
+		for _, ret := range an.Returns(fr.fn) {
+			vals := returnValues(ret)
+			if len(vals) != 1 {
+				return rt.Undecided, "helper looping over the pending queries has an unexpected result shape"
+			}
+			targets = append(targets, vals[0])
+		}
+	}
+	isKeep := func(in ssa.Instruction) bool {
+		switch x := in.(type) {
+		case *ssa.Send:
+			return m.elemOf(x.Chan, fr, loop, fr)
+		case *ssa.Call:
+			if b, ok := x.Call.Value.(*ssa.Builtin); ok && b.Name() == "append" {
+				els := appendedElems(x)
+				if len(els) != 1 || !m.elemOf(els[0], fr, loop, fr) {
+					return false
+				}
+				if inField[x] {
+					return true
+				}
+				if len(targets) == 0 {
+					return false
+				}
+				for _, t := range targets {
+					if !c06FlowsTo(x, t) {
+						return false
+					}
+				}
+				return true
+			}
+		}
+		return false
+	}
 	var entry *ssa.BasicBlock
 	for _, s := range loop.Header.Succs {
 		if loop.Body[s] && s != loop.Header {
@@ -508,33 +1621,192 @@ func c06ResolverKeeps(fn *ssa.Function, queries string) (bool, string) {
 		}
 	}
 	if entry == nil || len(entry.Instrs) == 0 {
-		return false, "cannot find loop body"
+		return rt.Undecided, "cannot find the loop body"
 	}
-	prune := func(b *ssa.BasicBlock, succ int) bool {
-		// the true edge of cancelled(elem.Cancel) legitimately drops the query
-		iff, ok := b.Instrs[len(b.Instrs)-1].(*ssa.If)
-		if !ok {
-			return false
-		}
-		call, ok := iff.Cond.(*ssa.Call)
-		if !ok || call.Call.StaticCallee() == nil || call.Call.StaticCallee().Name() != "cancelled" {
-			return false
-		}
-		return succ == 0 && loop.ElemOf(call.Call.Args[0])
+	// valuation "the query is not cancelled": decoded from select-with-default on a channel of the element, inline or
+	// in a boolean helper
+	blocks := []*ssa.BasicBlock{}
+	for b := range loop.Body {
+		blocks = append(blocks, b)
 	}
-	// walk from the first instruction of the body (treat it as `from` by starting before it)
+	known, undecoded := c06NotCancelled(m, r, blocks, fr)
+	if r.sendAt != nil {
+		// per-query helper: under "not cancelled", every path through it answers the query or returns false; the loop
+		// is then explored for the outcome false only (a true result means answered or cancelled)
+		hf := r.sendFr.fn
+		hknown, hundec := c06NotCancelled(m, r, hf.Blocks, r.sendFr)
+		bt, isBool := r.sendAt.Type().Underlying().(*types.Basic)
+		if hundec || !isBool || bt.Kind() != types.Bool || len(hf.Blocks[0].Instrs) == 0 {
+			return rt.Undecided, "cannot summarise the per-query helper " + an.FuncName(hf)
+		}
+		lied := false
+		_, esc := an.H06Escape(hf.Blocks[0].Instrs[0], an.H06Opt{Inclusive: true,
+			Env: func(v ssa.Value) (constant.Value, bool) { k, ok := hknown[v]; return k, ok },
+			Effect: func(in ssa.Instruction) bool {
+				snd, ok := in.(*ssa.Send)
+				return ok && m.elemOf(snd.Chan, r.sendFr, loop, fr)
+			},
+			ReturnOK: func(ret *ssa.Return, kn an.H06Env) bool {
+				vals := returnValues(ret)
+				if len(vals) != 1 {
+					return false
+				}
+				k, ok := an.H06Eval(vals[0], kn)
+				if ok && k.Kind() == constant.Bool && constant.BoolVal(k) {
+					lied = true
+				}
+				return ok && k.Kind() == constant.Bool && !constant.BoolVal(k)
+			}})
+		if esc && lied {
+			return rt.Violation, "the per-query helper " + an.FuncName(hf) + " reports an uncancelled query as done on a path that does not answer it: the query is dropped"
+		}
+		if esc {
+			return rt.Undecided, "the per-query helper " + an.FuncName(hf) + " can report an uncancelled query as done without answering it (or the rule cannot follow it)"
+		}
+		known[r.sendAt] = constant.MakeBool(false)
+	}
+	env := func(v ssa.Value) (constant.Value, bool) { k, ok := known[v]; return k, ok }
 	first := entry.Instrs[0]
 	if isKeep(first) {
-		return true, ""
+		return rt.OK, ""
 	}
-	path, esc := an.EscapePath(first, isKeep, an.PassOpt{Prune: prune, StopAt: func(b *ssa.BasicBlock) bool { return b == loop.Header }})
+	path, esc := an.H06Escape(first, an.H06Opt{Env: env, Effect: isKeep,
+		StopBlock: func(b *ssa.BasicBlock) bool { return b == loop.Header },
+		Exit:      func(in ssa.Instruction) bool { return !loop.Body[in.Block()] }})
 	if esc {
-		return false, "an iteration can finish without answering or re-queueing an uncancelled query: blocks " + blockList(path)
+		if undecoded {
+			return rt.Undecided, "cannot decode how the loop tests for a cancelled query"
+		}
+		return rt.Violation, "an iteration can finish without answering or re-queueing an uncancelled query: blocks " + blockList(path)
 	}
 	if b := an.LoopEarlyExit(loop); b != nil {
-		return false, "the loop over the pending queries can be left early: remaining queries are neither answered nor kept"
+		return rt.Violation, "the loop over the pending queries can be left early: remaining queries are neither answered nor kept"
 	}
-	return true, ""
+	return rt.OK, ""
+}
+
+// c06NotCancelled collects, over the given blocks (evaluated in frame bfr), the values that are known when the
+// element's cancel channel is not ready: the index of a select-with-default on it, the result of a boolean helper
+// doing such a select. undecoded reports a helper on the element's receive channel that could not be summarised.
+func c06NotCancelled(m *c06Model, r *c06Resolver, blocks []*ssa.BasicBlock, bfr *c06Frame) (map[ssa.Value]constant.Value, bool) {
+	loop, fr := r.loop, r.fr
+	known := map[ssa.Value]constant.Value{}
+	undecoded := false
+	recvChan := func(v ssa.Value) bool {
+		ch, ok := v.Type().Underlying().(*types.Chan)
+		return ok && ch.Dir() != types.SendOnly
+	}
+	for _, b := range blocks {
+		for _, in := range b.Instrs {
+			switch x := in.(type) {
+			case *ssa.Select:
+				if x.Blocking || len(x.States) != 1 || x.States[0].Dir != types.RecvOnly {
+					continue
+				}
+				if !m.elemOf(x.States[0].Chan, bfr, loop, fr) {
+					continue
+				}
+				for _, ref := range *x.Referrers() {
+					if ex, ok := ref.(*ssa.Extract); ok && ex.Index == 0 {
+						known[ex] = constant.MakeInt64(-1)
+					}
+				}
+			case *ssa.Call:
+				callee := x.Call.StaticCallee()
+				if callee == nil || !m.inPkg(callee) || callee.Blocks == nil {
+					continue
+				}
+				bt, ok := x.Type().Underlying().(*types.Basic)
+				if !ok || bt.Kind() != types.Bool {
+					continue
+				}
+				argIdx := -1
+				for i, a := range x.Call.Args {
+					if recvChan(a) && m.elemOf(a, bfr, loop, fr) {
+						argIdx = i
+					}
+				}
+				if argIdx < 0 {
+					continue
+				}
+				if k, ok := c06SelectSummary(callee, argIdx); ok {
+					known[x] = k
+				} else {
+					undecoded = true
+				}
+			}
+		}
+	}
+	return known, undecoded
+}
+
+// c06SelectSummary: callee is a boolean function doing a non-blocking receive on parameter #idx; returns the value
+// it yields when the channel is NOT ready (the default case), provided it yields the opposite when it is.
+func c06SelectSummary(callee *ssa.Function, idx int) (constant.Value, bool) {
+	if idx >= len(callee.Params) {
+		return nil, false
+	}
+	var sel *ssa.Select
+	for _, in := range an.Instrs(callee, false) {
+		if s, ok := in.(*ssa.Select); ok && !s.Blocking && len(s.States) == 1 && s.States[0].Dir == types.RecvOnly &&
+			an.Resolve(s.States[0].Chan) == ssa.Value(callee.Params[idx]) {
+			if sel != nil {
+				return nil, false
+			}
+			sel = s
+		}
+	}
+	if sel == nil {
+		return nil, false
+	}
+	var idxv ssa.Value
+	for _, ref := range *sel.Referrers() {
+		if ex, ok := ref.(*ssa.Extract); ok && ex.Index == 0 {
+			idxv = ex
+		}
+	}
+	if idxv == nil {
+		return nil, false
+	}
+	outcome := func(k int64) (constant.Value, bool) {
+		var res constant.Value
+		ok := true
+		n := 0
+		an.H06Escape(sel, an.H06Opt{NoReenter: true,
+			Env: func(v ssa.Value) (constant.Value, bool) {
+				if v == idxv {
+					return constant.MakeInt64(k), true
+				}
+				return nil, false
+			},
+			ReturnOK: func(r *ssa.Return, env an.H06Env) bool {
+				n++
+				vals := returnValues(r)
+				if len(vals) != 1 {
+					ok = false
+					return true
+				}
+				kv, known := an.H06Eval(vals[0], env)
+				if !known || kv.Kind() != constant.Bool || (res != nil && !constant.Compare(res, token.EQL, kv)) {
+					ok = false
+					return true
+				}
+				res = kv
+				return true
+			}})
+		return res, ok && n > 0 && res != nil
+	}
+	ready, ok1 := outcome(0)
+	notReady, ok2 := outcome(-1)
+	if !ok1 || !ok2 || constant.Compare(ready, token.EQL, notReady) {
+		return nil, false
+	}
+	for _, r := range an.Returns(callee) {
+		if !an.Dominates(sel, r) {
+			return nil, false
+		}
+	}
+	return notReady, true
 }
 
 func blockList(p []*ssa.BasicBlock) string {
@@ -587,10 +1859,283 @@ func c06FlowsTo(v ssa.Value, target ssa.Value) bool {
 			if b, ok := x.Call.Value.(*ssa.Builtin); ok && b.Name() == "append" {
 				return walk(x.Call.Args[0])
 			}
+		case *ssa.UnOp:
+			if x.Op == token.MUL {
+				if al, ok := x.X.(*ssa.Alloc); ok {
+					for _, ref := range *al.Referrers() {
+						if st, ok := ref.(*ssa.Store); ok && st.Addr == ssa.Value(al) && walk(st.Val) {
+							return true
+						}
+					}
+				}
+			}
+		case *ssa.Slice:
+			return walk(x.X)
 		}
 		return false
 	}
 	return walk(target)
 }
 
-var _ = types.Universe
+// ---------------------------------------------------------------------------------------------
+// D5: stored data is deleted only for duties received from the deadliner's expiry channel.
+
+func c06D5(c *rt.Ctx, m *c06Model) {
+	const expiry = "iface:core.Deadliner.C"
+	isDelete := c06DeleteOf
+	driven := func(ci ssa.CallInstruction) bool {
+		for _, a := range ci.Common().Args {
+			if c06FromRecv(m, a, expiry, 0) {
+				return true
+			}
+		}
+		return false
+	}
+	const (
+		cYes = iota
+		cNo
+		cUnknown
+	)
+	var confined func(fn *ssa.Function, seen map[*ssa.Function]bool) int
+	confined = func(fn *ssa.Function, seen map[*ssa.Function]bool) int {
+		if seen[fn] {
+			return cYes
+		}
+		seen[fn] = true
+		if c06Exported(fn) {
+			return cNo
+		}
+		if len(m.refs[fn]) == 0 {
+			if fn.Parent() != nil {
+				return cUnknown
+			}
+			return cYes // nothing runs it
+		}
+		res := cYes
+		for _, r := range m.refs[fn] {
+			ci, ok := r.(*ssa.Call)
+			if !ok || m.funcOf(ci.Call.Value) != fn {
+				res = cUnknown // used as a value, deferred or started as a goroutine
+				continue
+			}
+			if driven(ci) {
+				continue
+			}
+			switch confined(r.Parent(), seen) {
+			case cNo:
+				return cNo
+			case cUnknown:
+				res = cUnknown
+			}
+		}
+		return res
+	}
+	// keyedByExpired: the deleted key (or, for clear/whole-map forms, nothing) is computed from a duty received from
+	// the expiry channel in the same function (the deletion was inlined into the drain loop)
+	keyedByExpired := func(fn *ssa.Function, in ssa.Instruction) bool {
+		call := in.(*ssa.Call)
+		if len(call.Call.Args) < 2 {
+			return false
+		}
+		for _, x := range an.Instrs(fn, false) {
+			v, ok := x.(ssa.Value)
+			if !ok || !c06RecvOf(v, expiry) {
+				continue
+			}
+			if c06DependsOn(call.Call.Args[1], v) && an.Dominates(x, in) {
+				return true
+			}
+		}
+		return false
+	}
+	nDriven := 0
+	for _, fn := range m.all {
+		for _, in := range an.Instrs(fn, false) {
+			if k, ok := isDelete(in); ok {
+				name := an.FuncName(fn) + " delete " + k
+				if keyedByExpired(fn, in) {
+					nDriven++
+					c.Good(name, in.Pos(), "key computed from a duty received from deadliner.C()")
+					continue
+				}
+				switch confined(fn, map[*ssa.Function]bool{}) {
+				case cYes:
+					c.Good(name, in.Pos(), "")
+				case cNo:
+					c.Bad(name, in.Pos(), "stored data is deleted in a function that can run for a duty that was not received from the deadliner's expiry channel")
+				default:
+					c.Unsure(name, in.Pos(), "the deleting function is used as a value; cannot show that it only runs for duties received from the deadliner's expiry channel")
+				}
+			}
+		}
+	}
+	// the expiry-driven call sites themselves (vacuity: at least one must exist)
+	deleters := map[*ssa.Function]bool{}
+	var mayDelete func(fn *ssa.Function, seen map[*ssa.Function]bool) bool
+	mayDelete = func(fn *ssa.Function, seen map[*ssa.Function]bool) bool {
+		if seen[fn] {
+			return false
+		}
+		seen[fn] = true
+		for _, in := range an.Instrs(fn, false) {
+			if _, ok := isDelete(in); ok {
+				return true
+			}
+			for _, g := range m.during(in) {
+				if mayDelete(g, seen) {
+					return true
+				}
+			}
+		}
+		return false
+	}
+	for _, fn := range m.all {
+		if mayDelete(fn, map[*ssa.Function]bool{}) {
+			deleters[fn] = true
+		}
+	}
+	for _, fn := range m.all {
+		for _, in := range an.Instrs(fn, false) {
+			ci, ok := in.(*ssa.Call)
+			if !ok {
+				continue
+			}
+			g := m.funcOf(ci.Call.Value)
+			if g == nil || !deleters[g] || ci.Call.IsInvoke() || !driven(ci) {
+				continue
+			}
+			nDriven++
+			c.Good(an.FuncName(fn)+" calls "+an.FuncName(g)+" for an expired duty", ci.Pos(), "argument received from deadliner.C()")
+		}
+	}
+	if nDriven == 0 {
+		c.Unsure("expiry-driven deletion", token.NoPos, "no call of a deleting function with a duty received from deadliner.C() found")
+	}
+}
+
+// c06FromRecv: v is (a field of / a conversion of) a value received from the channel returned by the named call,
+// possibly through the result of an in-package helper whose every return yields such a value (or a zero value).
+func c06FromRecv(m *c06Model, v ssa.Value, callee string, d int) bool {
+	if d > 4 {
+		return false
+	}
+	v = an.Resolve(v)
+	switch x := v.(type) {
+	case *ssa.Field:
+		return c06FromRecv(m, x.X, callee, d+1)
+	case *ssa.UnOp:
+		if x.Op == token.MUL {
+			if fa, ok := x.X.(*ssa.FieldAddr); ok {
+				return c06FromRecv(m, fa.X, callee, d+1)
+			}
+			if al, ok := x.X.(*ssa.Alloc); ok {
+				// a local that is only assigned received values
+				n := 0
+				for _, ref := range *al.Referrers() {
+					if st, ok := ref.(*ssa.Store); ok && st.Addr == ssa.Value(al) {
+						n++
+						if !c06FromRecv(m, st.Val, callee, d+1) {
+							return false
+						}
+					}
+				}
+				return n > 0
+			}
+		}
+	case *ssa.Alloc:
+		n := 0
+		for _, ref := range *x.Referrers() {
+			if st, ok := ref.(*ssa.Store); ok && st.Addr == ssa.Value(x) {
+				n++
+				if !c06FromRecv(m, st.Val, callee, d+1) {
+					return false
+				}
+			}
+		}
+		return n > 0
+	case *ssa.Phi:
+		for _, e := range x.Edges {
+			if !c06FromRecv(m, e, callee, d+1) {
+				return false
+			}
+		}
+		return len(x.Edges) > 0
+	case *ssa.Extract:
+		if call, ok := x.Tuple.(*ssa.Call); ok {
+			return c06ResultFromRecv(m, call, x.Index, callee, d)
+		}
+	case *ssa.Call:
+		return c06ResultFromRecv(m, x, 0, callee, d)
+	}
+	return c06RecvOf(v, callee)
+}
+
+func c06ResultFromRecv(m *c06Model, call *ssa.Call, idx int, callee string, d int) bool {
+	g := call.Call.StaticCallee()
+	if g == nil || !m.inPkg(g) || g.Blocks == nil {
+		return false
+	}
+	n := 0
+	for _, r := range an.Returns(g) {
+		vals := returnValues(r)
+		if idx >= len(vals) {
+			return false
+		}
+		if c, ok := an.Unwrap(vals[idx]).(*ssa.Const); ok && (c.Value == nil || c06ZeroConst(c)) {
+			continue // zero value on the "nothing expired" path
+		}
+		if !c06FromRecv(m, vals[idx], callee, d+1) {
+			return false
+		}
+		n++
+	}
+	return n > 0
+}
+
+func c06ZeroConst(c *ssa.Const) bool {
+	if c.Value == nil {
+		return true
+	}
+	switch c.Value.Kind() {
+	case constant.Int:
+		v, ok := constant.Int64Val(c.Value)
+		return ok && v == 0
+	case constant.Bool:
+		return !constant.BoolVal(c.Value)
+	case constant.String:
+		return constant.StringVal(c.Value) == ""
+	}
+	return false
+}
+
+// c06RecvOf: v is the value of a receive (plain, comma-ok or in a select) from the channel returned by the named call.
+func c06RecvOf(v ssa.Value, callee string) bool {
+	isChan := func(ch ssa.Value) bool {
+		call, ok := an.Resolve(ch).(*ssa.Call)
+		return ok && an.CalleeName(&call.Call) == callee
+	}
+	v = an.Unwrap(v)
+	switch x := v.(type) {
+	case *ssa.UnOp:
+		if x.Op == token.ARROW {
+			return isChan(x.X)
+		}
+	case *ssa.Extract:
+		if u, ok := x.Tuple.(*ssa.UnOp); ok && u.Op == token.ARROW && x.Index == 0 {
+			return isChan(u.X)
+		}
+		if sel, ok := x.Tuple.(*ssa.Select); ok {
+			k := x.Index - 2
+			n := 0
+			for _, st := range sel.States {
+				if st.Dir == types.RecvOnly {
+					if n == k {
+						return isChan(st.Chan)
+					}
+					n++
+				}
+			}
+		}
+	}
+	return false
+}
